@@ -808,6 +808,23 @@ class SymExec(object):
                     return ('call', ('attr', args[0], 'functor'), (kd['left'], kd['right']), ())
                 if set(kd) == {'feature'}:
                     return ('call', ('name', 'Atom'), (('attr', args[0], 'base'), kd['feature']), ())
+            _PARTIAL = (('name', 'partial'), ('attr', ('name', 'functools'), 'partial'))
+            if f[0] == 'call' and f[1] in _PARTIAL and f[2] and not any(a_[0] == 'star' for a_ in f[2]):
+                # calling functools.partial(g, *fixed, **fixedkw) is calling g with the fixed arguments first
+                f, args, kws = f[2][0], list(f[2][1:]) + list(args), tuple(f[3]) + tuple(kws)
+            elif f[0] == 'attr' and f[2] == 'apply_async' and args and args[0][0] == 'call' and args[0][1] in _PARTIAL and args[0][2] \
+                    and not any(a_[0] == 'star' for a_ in args[0][2]) and all(k_ is not None for k_, _ in args[0][3]):
+                # ... and so is handing it to a pool: the worker runs g(*fixed, *args, **fixedkw, **kwds)
+                pt_ = args[0]
+                kd_ = dict(kws)
+                pos_ = args[1] if len(args) > 1 else kd_.get('args')
+                kwd_ = args[2] if len(args) > 2 else kd_.get('kwds')
+                if (pos_ is None or pos_[0] in ('tuple', 'list')) and (kwd_ is None or kwd_[0] == 'dict') and len(args) <= 3:
+                    fixed_kw = ('dict', tuple((('const', k_), v_) for k_, v_ in pt_[3]))
+                    new_pos = ('tuple', tuple(pt_[2][1:]) + (tuple(pos_[1]) if pos_ is not None else ()))
+                    new_kwd = ('dict', (((None, fixed_kw),) if pt_[3] else ()) + (tuple(kwd_[1]) if kwd_ is not None else ()))
+                    args = [pt_[2][0]]
+                    kws = tuple((k_, v_) for k_, v_ in kws if k_ not in ('args', 'kwds')) + (('args', new_pos), ('kwds', new_kwd))
             if f == ('name', 'int') and len(args) == 1 and not kws and args[0][0] == 'unop' and args[0][1] == 'not':
                 return ('ifexp', args[0][2], ('const', 0), ('const', 1))      # int(not b) is 0 if b else 1
             if f == ('name', 'len') and len(args) == 1 and not kws and args[0][0] == 'const' and isinstance(args[0][1], str):
